@@ -226,6 +226,11 @@ def ntcg_correspondence(rng, n_gen, nmax=3):
     import cobyqa.subsolvers as S
     from c15 import _stream_driver
     cases = [c for c in (subgen.gen(rng, "normal") for _ in range(n_gen)) if c["n"] <= nmax]
+    # a share of problems whose first phase ends on the trust-region boundary (small radius): the second phase runs
+    for k, c in enumerate(cases):
+        if k % 3 == 0:
+            c["delta"] = float(c["delta"]) * 0.05
+            c["improve_tcg"] = True
     n_zero = sum(1 for c in cases if any(not np.any(r) for r in c["aub"]))
     cases = [c for c in cases if not any(not np.any(r) for r in c["aub"])]
 
